@@ -265,6 +265,28 @@ func c14Isolation() []string {
 			problems = append(problems, fmt.Sprintf("a member replaced through one import expression is replaced for another import: %v %v", v, err))
 		}
 	}
+	// a package table may hold addressable entries (env.NilValue, which env.go names as the value to register for nil, is one):
+	// what a script stores through a pointer to such a member stays in its own import
+	nilBefore := fmt.Sprint(env.NilValue.Interface())
+	cell := reflect.New(reflect.TypeOf(int64(0))).Elem()
+	cell.SetInt(3)
+	env.Packages["zzisolation"] = map[string]reflect.Value{"None": env.NilValue, "Cell": cell, "Plain": reflect.ValueOf(int64(7))}
+	for _, member := range []string{"None", "Cell", "Plain"} {
+		e1, e2 := env.NewEnv(), env.NewEnv()
+		first, _ := run(e2, "import(\"zzisolation\")."+member)
+		run(e1, "p = import(\"zzisolation\"); q = &p."+member+"; *q = 5")
+		run(e1, "import(\"zzisolation\")."+member+" = 6")
+		for _, e := range []*env.Env{e1, e2, env.NewEnv()} {
+			if v, err := run(e, "import(\"zzisolation\")."+member); err != nil || fmt.Sprint(v) != fmt.Sprint(first) {
+				problems = append(problems, fmt.Sprintf("a store through a pointer to the package member %s of one import shows in another import: %v %v (before: %v)", member, v, err, first))
+			}
+		}
+	}
+	delete(env.Packages, "zzisolation")
+	if now := fmt.Sprint(env.NilValue.Interface()); now != nilBefore {
+		problems = append(problems, "a script changed env.NilValue for the whole process: it now holds "+now)
+		env.NilValue.Set(reflect.Zero(env.NilValue.Type()))
+	}
 	// runs that are deep in their own recursion at the same moment do not draw on anything common: one tree, six fresh
 	// environments, every run waits at the bottom of its recursion until all have arrived
 	if tree, err := ankoparser.ParseSrc("func down(n) { if n == 0 { arrive(); return 0 }; return 1 + down(n - 1) }; down(2500)"); err == nil {
